@@ -179,6 +179,8 @@ class CFG:
         b = self.blocks[bid]
         c = self.func.node(b['cond']) if 'cond' in b else None
         from .facts import children, strip_all_casts
+        if c is not None and c.get('k') == 'CXXForRangeStmt':
+            return None      # hidden `__begin != __end` of a range-for: no source-level condition
         while c is not None and c.get('k') == 'BinaryOperator' and c.get('op') in ('||', '&&') \
                 and b.get('term') != c['id']:
             kids = children(c)
